@@ -36,6 +36,19 @@ def _inputs(case):
             2.0, 1.0, size=data.shape))
         for (i, j, v) in case.get('error_special', []):
             error[i % ny, j % nx] = v
+    dt = case.get('dtype')
+    if dt == 'float32':
+        # the same numbers held in single precision (sums are still formed
+        # in double precision: weights are float64)
+        with np.errstate(over='ignore'):
+            d32 = data.astype('f4')
+        if np.all(np.isfinite(d32) == np.isfinite(data)):
+            data = d32
+            if error is not None:
+                error = error.astype('f4')
+    elif dt == 'int16' and np.all(np.isfinite(data)) \
+            and np.all(np.abs(data) < 3e4) and np.all(data == np.round(data)):
+        data = data.astype('i2')
     return data, mask, error
 
 
@@ -43,6 +56,11 @@ def oracle_position(shape, x, y, data, mask, error, method, subpixels):
     """Returns dict(sum, err, area, tol_sum, tol_area, nan_expected,
     ambiguous)"""
     ny, nx = data.shape
+    # the reference always works in double precision on the same numbers
+    data = np.asarray(data, dtype=float)
+    err_dtype = None if error is None else np.asarray(error).dtype
+    if error is not None:
+        error = np.asarray(error, dtype=float)
     miss, amb_box = G.box_misses(shape, x, y, (ny, nx))
     out = {'miss': miss, 'amb_box': amb_box}
     W, S = G.weight_image(shape, x, y, (ny, nx), method, subpixels)
@@ -69,8 +87,10 @@ def oracle_position(shape, x, y, data, mask, error, method, subpixels):
             keep = (W + S > 0) & (~mask if mask is not None else True)
             lo = float((np.clip(W - S, 0, None) * error ** 2)[keep].sum())
             hi = float(((W + S) * error ** 2)[keep].sum())
-            out['err_lo'] = math.sqrt(lo) * (1 - 1e-10)
-            out['err_hi'] = math.sqrt(hi) * (1 + 1e-10) + 1e-300
+            # a float32 error map is squared in its own precision
+            rel = 1e-6 if err_dtype == np.float32 else 1e-10
+            out['err_lo'] = math.sqrt(lo) * (1 - rel)
+            out['err_hi'] = math.sqrt(hi) * (1 + rel) + 1e-300
     out['nsel'] = int(sel.sum())
     out['W'] = W
     return out
@@ -234,9 +254,10 @@ def sums_cases(draw):
     return {'image': img, 'mask': draw(mask_spec(ny, nx)),
             'error_seed': draw(st.one_of(st.none(), st.integers(0, 10**6))),
             'shape': sh, 'method': method,
-            'subpixels': draw(st.sampled_from([1, 2, 3, 5, 7, 10])),
+            'subpixels': draw(st.sampled_from([1, 2, 3, 5, 7, 10, 33, 50])),
             'positions': draw(positions_around(ny, nx, reach)),
             'scalar': draw(st.booleans()),
+            'dtype': draw(st.sampled_from([None, None, 'float32', 'int16'])),
             'error_special': [list(t) for t in draw(st.lists(st.tuples(
                 st.integers(0, 39), st.integers(0, 39),
                 st.sampled_from([float('nan'), float('inf'), 0.0])),
